@@ -17,6 +17,11 @@ transparent cache) or 'rgb' (opaque cache): the comparison with the tile fetched
 (b) histories on ONE cache: several requests with changing configuration and removals of single tiles in between
 (partially cached meta tiles with and without their main tile); the observed plan is compared with
 `plan_with_cache`, every requested tile must be served with an image.
+(c) schedules: creators of one request that run in parallel meet before the source reads its query - in the mock
+source's get_map, or (real WMSSource/WMSClient over a mock HTTP client) after WMSClient._query_req has set the last
+request parameter; two request threads on ONE TileManager, the first held inside MetaGrid.meta_tile;
+(d) upstream faults: one response of a request is not cacheable (substitute image) or ends in the middle of the PNG
+image data; afterwards the same request again without fault; compared with `request_with_faults`.
 Oracle (Python, exact fractions, independent of the model): stored tile == same tile fetched alone through a
 TileManager without meta tiling (bit-exact when no buffer is cut off at the grid border, <= 1 px otherwise);
 no background pixel more than one pixel inside the extent; every requested tile is produced; one upstream
@@ -56,7 +61,8 @@ TRUSTED = ['model MetaGrid.v hand-written from mapproxy/grid.py (MetaGrid), imag
 ASSUMPTIONS = ['resolutions positive, bbox non-degenerate, tile size positive, meta size >= 1, buffer >= 0',
                'end to end: the grid extent is at least one pixel wide and high on the level (otherwise a truncated meta request has size 0)',
                'the upstream picture depends on ground position only (section hypothesis: it is the sampling function of the model)',
-               'plan_with_cache: a request does not name the same coordinate twice']
+               'plan_with_cache: a request does not name the same coordinate twice',
+               'request_with_faults: a faulted response is named by its bbox (cases where two requests of one call have the same bbox are counted and not compared); cut-off responses are modelled for the meta tile strategies only']
 EXPLANATION = ('crop pattern arithmetic proved over Z for all grids/meta sizes/buffers; real MetaGrid and TileManager '
                'compared with the model on an exact stream; tiles compared pixel by pixel with the tile fetched alone')
 
@@ -407,6 +413,7 @@ def run_manager(gc, picture, cfg, coords, cache=None, rendezvous=None, fault_at=
         cache = RecordingCache(events, lock)
     else:
         cache.events, cache.lock = events, lock
+    pre_cached = set(cache.stored)
     try:
         tm = TileManager(gc.grid, cache, [src], 'png', DummyLocker(), image_opts=opts,
                          meta_size=cfg['meta_size'], meta_buffer=cfg['meta_buffer'],
@@ -444,7 +451,7 @@ def run_manager(gc, picture, cfg, coords, cache=None, rendezvous=None, fault_at=
     if not sequential:
         pos = {}
         for i, c in enumerate(coords):
-            if c is not None:
+            if c is not None and tuple(c) not in pre_cached:
                 pos.setdefault(tuple(c), i)
 
         def first(step):
